@@ -159,18 +159,35 @@ type verifFaultyReader struct {
 	fail  map[string]bool
 }
 
+// (a key "dir|language" stands for the path of that directory with that language id: a directory
+// can hold several languages, each with a path context of its own)
+func verifPathOfKey(k string) lang.Path {
+	for i := 0; i < len(k); i++ {
+		if k[i] == '|' {
+			return lang.Path{Path: k[:i], LanguageID: k[i+1:]}
+		}
+	}
+	return lang.Path{Path: k}
+}
+
+func verifKeyOfPath(p lang.Path) string {
+	if p.LanguageID != "" {
+		return p.Path + "|" + p.LanguageID
+	}
+	return p.Path
+}
+
 func (r *verifFaultyReader) Paths(ctx context.Context) []lang.Path {
 	out := make([]lang.Path, 0)
 	for _, p := range r.order {
-		out = append(out, lang.Path{Path: p})
+		out = append(out, verifPathOfKey(p))
 	}
 	return out
 }
 
 func (r *verifFaultyReader) PathContext(path lang.Path) (*PathContext, error) {
-	if r.fail[path.Path] {
+	if r.fail[verifKeyOfPath(path)] {
 		return nil, errors.New("unreadable path")
 	}
-	return r.ctxs[path.Path], nil
+	return r.ctxs[verifKeyOfPath(path)], nil
 }
-
